@@ -325,7 +325,7 @@ Fixpoint lookup (t : Z) (rows : list row) : option value :=
   end.
 Definition default_val (f : fillmode) (fn : aggfn) (prev : value) : value :=
   match f with
-  | FValue v => match fn with Mean => VMean v 1 | _ => VInt v end
+  | FValue v => match fn with Mean => VMean v 1 | Raw => VNull | _ => VInt v end
   | FPrevious => prev
   | _ => VNull
   end.
@@ -348,7 +348,15 @@ Definition aggfn_eqb (a b : aggfn) : bool :=
   end.
 Definition call_eqb (a b : aggfn * fieldkey) : bool := aggfn_eqb (fst a) (fst b) && fieldkey_eqb (snd a) (snd b).
 
-Definition agg_rows (md : mode) (q : query) (d : dataset) (k : skey) : list row :=
+(** [kn fld]: the field exists in the measurement's schema.  sum/min/max/first/last return the
+    type of their argument; on a field that does not exist they have no type and are no column of
+    the cursor at all (select.go buildCursor skips a call whose driver type is Unknown): they show
+    null in every row, whatever the fill mode -- a fill value is cast to the column's type and
+    there is none.  count() and mean() are integer / float whatever their argument, so they remain
+    (empty, hence filled) columns.  (In the join a missing column is the pseudo column [(Raw, [])],
+    whose default is null.) *)
+Definition typed_by_arg (fn : aggfn) : bool := match fn with Count | Mean => false | _ => true end.
+Definition agg_rows (md : mode) (kn : fieldkey -> bool) (q : query) (d : dataset) (k : skey) : list row :=
   let sel := q_sel q in
   (* identical calls are one call for the planner (valueMapper): a selector is "alone" when it
      is the only DISTINCT call, and then its rows carry the time of the selected point *)
@@ -356,7 +364,7 @@ Definition agg_rows (md : mode) (q : query) (d : dataset) (k : skey) : list row 
                | (fn, fld) :: r => is_selector fn && forallb (fun c => call_eqb c (fn, fld)) r
                | [] => false end in
   let cut := if m_limit_per_call md then limoff (q_limit q) (q_offset q) else (fun l => l) in
-  let cols := map (fun c => (fst c, cut (call_rows md q d alone c k))) sel in
+  let cols := map (fun c => if kn (snd c) || negb (typed_by_arg (fst c)) then (fst c, cut (call_rows md q d alone c k)) else (Raw, [])) sel in
   let times := dedup Z.eqb (isort (time_leb (q_desc q)) (flat_map (fun c => map fst (snd c)) cols)) in
   join_rows (q_fill q) cols (map (fun _ => VNull) cols) times.
 
@@ -365,9 +373,9 @@ Definition agg_rows (md : mode) (q : query) (d : dataset) (k : skey) : list row 
 Definition is_raw (q : query) : bool := match q_sel q with (Raw, _) :: _ => true | _ => false end.
 
 (** rows of output series [k] before LIMIT/OFFSET, in output order *)
-Definition series_rows (md : mode) (q : query) (d : dataset) (k : skey) : list row :=
+Definition series_rows (md : mode) (kn : fieldkey -> bool) (q : query) (d : dataset) (k : skey) : list row :=
   if is_raw q then (if q_desc q then rev (raw_rows q d k) else raw_rows q d k)
-  else agg_rows md q d k.
+  else agg_rows md kn q d k.
 
 (** candidate output series: group keys of the qualifying points, ascending *)
 Definition cand_keys (q : query) (d : dataset) : list skey := keys_of (q_gtags q) (filter (qualifies q) d).
@@ -398,17 +406,28 @@ Definition engine_point_ok (split : Z) (q : query) (d : dataset) (p : point) : b
   shard_used split q s &&
   existsb (key_eqb (gkey (q_gtags q) p)) (limit_tagsets (q_slimit q) (q_soffset q) (index_keys split q d s)).
 
-Definition evalg (md : mode) (split : Z) (d : dataset) (q : query) : result :=
+(** The schema: a field exists when some stored point of the measurement (any series, any time,
+    inside or outside the query's time range) carries it -- in the shards the query's time range
+    maps to (field types are asked from the mapped shards, LocalShardMapping.MapType); with one
+    shard: in the dataset. *)
+Definition known_fields (split : Z) (q : query) (d : dataset) (fld : fieldkey) : bool :=
+  existsb (fun p => shard_used split q (shard_of split p) && isSome (fieldval fld p)) d.
+
+(** the evaluator for a given schema [kn] *)
+Definition evalk (md : mode) (kn : fieldkey -> bool) (split : Z) (d : dataset) (q : query) : result :=
   let d' := if m_slimit_index md then filter (engine_point_ok split q d) d else d in
   let keys := cand_keys q d' in
-  let unl := filter nonempty (map (fun k => (k, series_rows md q d' k)) keys) in
+  let unl := filter nonempty (map (fun k => (k, series_rows md kn q d' k)) keys) in
   (* SLIMIT/SOFFSET count the result series in ascending tag order, whatever the time order *)
   let chosen := if m_slimit_index md then unl else slim q unl in
   let chosen := if q_desc q then rev chosen else chosen in
   let cut := if is_raw q || negb (m_limit_per_call md) then limoff (q_limit q) (q_offset q) else (fun l => l) in
   filter nonempty (map (fun kr => (fst kr, cut (snd kr))) chosen).
 
-(** THE reference evaluator (documented semantics; independent of the shard layout) *)
+Definition evalg (md : mode) (split : Z) (d : dataset) (q : query) : result :=
+  evalk md (known_fields split q d) split d q.
+
+(** THE reference evaluator (documented semantics; one shard) *)
 Definition eval (d : dataset) (q : query) : result := evalg spec_mode 0 d q.
 Definition eval_engine (split : Z) (d : dataset) (q : query) : result := evalg engine_mode split d q.
 
@@ -512,4 +531,7 @@ Definition conform (exact : bool) (md : mode) (c : case) : bool :=
                     (if is_raw q then evalg md (c_split c) (c_points c) (no_limits q) else final).
 
 Definition check (c : case) : verdict :=
-  judge (conform false engine_mode c) (conform true spec_mode {| c_points := c_points c; c_split := 0; c_query := c_query c; c_err := c_err c; c_out := c_out c |}).
+  (* the documented semantics do not depend on the shard layout except through the schema (which
+     fields exist is asked from the shards the time range maps to): [spec_mode] ignores the split
+     everywhere else *)
+  judge (conform false engine_mode c) (conform true spec_mode c).
